@@ -2,6 +2,7 @@ package main
 
 import (
 	"bufio"
+	"bytes"
 	"crypto/sha256"
 	"encoding/json"
 	"errors"
@@ -74,8 +75,8 @@ func (c *inprocClient) Close() string {
 // directory): "write" = Put, a committed batch, a batch committed empty, Sync; "merge" = overwrite + Merge.
 func (c *inprocClient) Work(what string) string {
 	db := c.db
-	if what == "stalemerge" {
-		db = c.stale // Merge on a handle that was closed: whatever it returns, it must return and touch nothing
+	if what == "stalemerge" || what == "stalewrite" {
+		db = c.stale // a call on a handle that was closed: whatever it returns, it must return and touch nothing
 	}
 	if db == nil {
 		return "not-open"
@@ -113,6 +114,15 @@ func (c *inprocClient) Work(what string) string {
 		case "stalemerge":
 			if e := db.Merge(); e != nil && strings.HasPrefix(e.Error(), "panic") {
 				err = e
+			}
+		case "stalewrite":
+			// late writes through the closed handle: a small record, and one that needs a new data file. Errors and even
+			// panics are the caller's problem (use after Close) - what is judged is the directory
+			for _, v := range [][]byte{[]byte("late"), bytes.Repeat([]byte("L"), 200)} {
+				func() {
+					defer func() { recover() }()
+					db.Put([]byte("a"), v)
+				}()
 			}
 		}
 	}()
@@ -217,7 +227,7 @@ func procClientMain() {
 				fmt.Println("not-open")
 			}
 		case "work":
-			if c.IsOpen() || f[1] == "stalemerge" {
+			if c.IsOpen() || f[1] == "stalemerge" || f[1] == "stalewrite" {
 				fmt.Println(c.Work(f[1]))
 			} else {
 				fmt.Println("not-open")
@@ -236,7 +246,7 @@ type procEvent struct {
 }
 
 func (e procEvent) String() string {
-	if e.K == "open" || e.K == "close" || e.K == "write" || e.K == "merge" || e.K == "stalemerge" {
+	if e.K == "open" || e.K == "close" || e.K == "write" || e.K == "merge" || e.K == "stalemerge" || e.K == "stalewrite" {
 		return fmt.Sprintf("%s%d", e.K, e.C)
 	}
 	return e.K
@@ -324,18 +334,18 @@ func runProcSeq(clients []client, evs []procEvent, root string, res *TaskResult)
 			if r != "nil" {
 				return strings.Join(tr, " "), fmt.Sprintf("event %d %s: the holder's own calls failed: %s", i, ev, r)
 			}
-		case "stalemerge":
+		case "stalemerge", "stalewrite":
 			// a handle that was closed is used again (a timer-driven merge firing late, a caller's mistake): the call may
 			// fail any way it likes but must return, and must leave the directory - which may belong to somebody else by
 			// now - exactly as it is
 			before := dirFingerprint(dir) + "|" + dirFingerprint(dir+"-merge")
-			r := clients[ev.C].Work("stalemerge")
-			tr = append(tr, fmt.Sprintf("stalemerge%d=%s", ev.C, r))
+			r := clients[ev.C].Work(ev.K)
+			tr = append(tr, fmt.Sprintf("%s%d=%s", ev.K, ev.C, r))
 			if r == "panic" {
 				return strings.Join(tr, " "), fmt.Sprintf("event %d %s: Merge on a closed handle panicked or never returned (under the lock model a call that blocks for ever panics)", i, ev)
 			}
 			if after := dirFingerprint(dir) + "|" + dirFingerprint(dir+"-merge"); after != before {
-				return strings.Join(tr, " "), fmt.Sprintf("event %d %s: Merge on a closed handle changed the directory contents", i, ev)
+				return strings.Join(tr, " "), fmt.Sprintf("event %d %s: a call on a closed handle changed the directory contents", i, ev)
 			}
 		case "close":
 			r := clients[ev.C].Close()
@@ -380,12 +390,14 @@ func enumProcSeqs(nClients, depth int, visit func(evs []procEvent) bool) {
 			return visit(evs)
 		}
 		for c := 0; c < nClients; c++ {
-			if !opened[c] && closedOnce(c) && len(evs) < depth-1 && evs[len(evs)-1].K != "stalemerge" {
-				evs = append(evs, procEvent{"stalemerge", c})
-				ok := rec(holder, corrupt, opened)
-				evs = evs[:len(evs)-1]
-				if !ok {
-					return false
+			if !opened[c] && closedOnce(c) && len(evs) < depth-1 && !strings.HasPrefix(evs[len(evs)-1].K, "stale") {
+				for _, k := range []string{"stalemerge", "stalewrite"} {
+					evs = append(evs, procEvent{k, c})
+					ok := rec(holder, corrupt, opened)
+					evs = evs[:len(evs)-1]
+					if !ok {
+						return false
+					}
 				}
 			}
 			if !opened[c] {
